@@ -31,6 +31,14 @@ def run(chk, tier):
     chk.floor("R-SNPSIZE", "fixed-buffer snprintf sites in the XML code", ns, 6)
     chk.rule("R-FREERESET", "a child list released on the failure path of hwloc_look_xml is reset to NULL (same field) before returning, so that the topology can be cleared/destroyed again")
     guards.free_then_reset(chk, P, "hwloc_look_xml", "topology-xml.c", ("hwloc_free_object_siblings_and_children",), min_inst=4)
+    chk.rule("R-STATE", "hwloc_topology_load: once the LOADING state bit is set, every return is preceded by clearing it (pairing on all exits): a failed load leaves a topology "
+             "that can be configured and loaded again instead of one stuck in the LOADING state")
+    LOADING = P.unit("topology.c").enum_consts.get("HWLOC_TOPOLOGY_STATE_IS_LOADING")
+    if chk.need(LOADING is not None, "R-STATE: HWLOC_TOPOLOGY_STATE_IS_LOADING not found"):
+        nst = guards.released_on_all_exits(chk, P, "hwloc_topology_load", "topology.c",
+                                           lambda n: guards.bit_op(n, "state", LOADING, True), lambda n: guards.bit_op(n, "state", LOADING, False),
+                                           "R-STATE", "loading-bit", "the LOADING bit set at the start of hwloc_topology_load is cleared before this return")
+        chk.floor("R-STATE", "returns of hwloc_topology_load after the LOADING bit is set", nst, 2)
     chk.rule("R-PRECOND", "a callee's asserted precondition on a scalar parameter (assert(param OP CONSTANT)) holds at every call site of the XML import code: constant argument "
              "satisfying it, call unreachable with the excluded value (seeded evaluation), or relation tested on every path")
     npc = precond.run(chk, P, units=("topology-xml.c", "topology-xml-nolibxml.c", "topology-xml-libxml.c"))
@@ -45,7 +53,8 @@ def run(chk, tier):
     chk.rule("R-LINKFREE", "an object handed to an insertion function (which links, merges-and-frees or frees it) is never released afterwards by its creator: no feasible path from an insertion of x to hwloc_free_unlinked_object(x) (may-dataflow + correlated-condition path search)")
     nlf = linkfree.run(chk, P, units=("topology-xml.c",))
     chk.floor("R-LINKFREE", "release sites in the XML import code", nlf, 2)
-    chk.decided += ["assertions on scalar parameters of functions called by the XML import cannot fail on values taken from the file (memattr ids)",
+    chk.decided += ["a failed hwloc_topology_load() does not leave the topology in the LOADING state (it can be configured and loaded again)",
+                    "assertions on scalar parameters of functions called by the XML import cannot fail on values taken from the file (memattr ids)",
                     "enum-typed object attributes read from XML hold an enumerator (cache type, bridge upstream/downstream type): consumers that assert on them cannot abort",
                     "attributes read from XML are stored into the union member that matches the object's type (no type confusion between cache/numanode/group/pcidev/bridge/osdev attributes)",
                     "a failed import never frees an object that is already linked into the tree (no double free / use after free in the cleanup)",
